@@ -408,8 +408,9 @@ def node_nums(i, obj, out):
         put(F_BBOX, fmt_bbox(obj.bbox))
 
 
-def build_direct(T, con):
-    """model tree -> (list of real LTPage objects, number renderings)"""
+def build_direct(T, con, size_of=None, line_y=False, page_size=None):
+    """model tree -> (list of real LTPage objects, number renderings).  size_of(node, index): font size of a glyph
+    (default: all different); line_y: the glyphs of one parent share their baseline"""
     objs = {}
     nums = {}
     pages = []
@@ -419,7 +420,7 @@ def build_direct(T, con):
         k = n["k"]
         x = 10.0 * i
         if k == "page":
-            o = LTPage(len(pages) + 1, (0, 0, 200 + i, 300 + i))
+            o = LTPage(len(pages) + 1, (0, 0) + (page_size or (200 + i, 300 + i)))
             pages.append(o)
         elif k in TEXTBOXES:
             o = LTTextBoxHorizontal() if k == "textboxh" else LTTextBoxVertical()
@@ -427,7 +428,9 @@ def build_direct(T, con):
         elif k == "textline":
             o = LTTextLineHorizontal(0.1)
         elif k == "char":
-            o = LTChar((1, 0, 0, 1, x, 100.5 + i), StubFont(con.text(n["f"])), 8 + i, 1, 0, con.text(n["s"]), 0.5, 0, ncs, gs)
+            par = max([j for j in range(1, i) if T[j - 1]["d"] == n["d"] - 1] or [0])
+            o = LTChar((1, 0, 0, 1, x, 100.5 + (par if line_y else i)), StubFont(con.text(n["f"])), size_of(n, i) if size_of else 8 + i, 1, 0,
+                       con.text(n["s"]), 0.5, 0, ncs, gs)
         elif k == "anno":
             o = LTAnno(con.text(n["s"]))
         elif k == "figure":
